@@ -116,6 +116,36 @@ func (P *Program) sweep() (findings []sweepFinding, mapRanges []string, nfuncs i
 							findings = append(findings, sweepFinding{"map-range-without-determinacy-contract", name, site + ": range over a map, and the function's contract has no 'option det=' justification"})
 						}
 					}
+				}
+				// a package-level variable whose address is used for anything but a
+				// direct load (passed on, stored, field-addressed for a write):
+				// shared mutable state reachable from the library entry points
+				if f.Name() != "init" {
+					var ops []*ssa.Value
+					for _, op := range ins.Operands(ops) {
+						if op == nil || *op == nil {
+							continue
+						}
+						g, ok := (*op).(*ssa.Global)
+						if !ok || !strings.HasPrefix(g.Pkg.Pkg.Path(), "github.com/maruel/panicparse") {
+							continue
+						}
+						if u, ok := ins.(*ssa.UnOp); ok && u.Op == token.MUL {
+							continue // plain load
+						}
+						if st, ok := ins.(*ssa.Store); ok && st.Addr == *op {
+							continue // reported as store-to-package-variable
+						}
+						if _, ok := ins.(*ssa.DebugRef); ok {
+							continue
+						}
+						if v, ok := ins.(ssa.Value); ok && onlyLoadedFrom(v, 0) {
+							continue // element/field address used for reading only
+						}
+						findings = append(findings, sweepFinding{"store-to-package-variable", name, "takes the address of the package-level variable " + g.Name() + " (it can be written through that pointer)"})
+					}
+				}
+				switch x := ins.(type) {
 				case *ssa.MapUpdate:
 					if g := globalBehind(x.Map); g != nil && f.Name() != "init" {
 						findings = append(findings, sweepFinding{"store-to-package-variable", name, "updates the package-level map " + g.Name()})
@@ -313,4 +343,36 @@ func globalBehind(v ssa.Value) *ssa.Global {
 		}
 	}
 	return nil
+}
+
+// onlyLoadedFrom: v is a field/element address (chain) whose every use is a load.
+func onlyLoadedFrom(v ssa.Value, depth int) bool {
+	switch v.(type) {
+	case *ssa.FieldAddr, *ssa.IndexAddr:
+	default:
+		return false
+	}
+	if depth > 6 || v.Referrers() == nil {
+		return false
+	}
+	for _, r := range *v.Referrers() {
+		switch x := r.(type) {
+		case *ssa.UnOp:
+			if x.Op != token.MUL {
+				return false
+			}
+		case *ssa.DebugRef:
+		case *ssa.FieldAddr:
+			if !onlyLoadedFrom(x, depth+1) {
+				return false
+			}
+		case *ssa.IndexAddr:
+			if !onlyLoadedFrom(x, depth+1) {
+				return false
+			}
+		default:
+			return false
+		}
+	}
+	return true
 }
